@@ -76,6 +76,7 @@ class Server:
         # RabbitMQ does not order a publisher confirm against the Basic.Deliver of the same message to a consumer on the
         # same connection: when set, the delivery callback runs before basic_publish returns (else after)
         self.slow_confirm = False
+        self.channel_errors: list = []  # (time, channel number, text) of channels the server closed after a protocol error
 
     def declare(self, name: str, args: dict | None) -> None:
         if name not in self.queues:
@@ -219,6 +220,27 @@ class Channel:
         else:
             hand_over()
 
+    def _protocol_error(self, text: str) -> None:
+        """The server closes the channel (a channel-level exception, e.g. 406 PRECONDITION_FAILED): its consumers are gone, what
+        it held unacknowledged goes back to the queues, every later command on it fails.  Acknowledgements have no reply, so the
+        call that caused it does not raise."""
+        self.s.channel_errors.append((self.s.now(), self.number, text))
+        self.closed = True
+        for q in self.s.queues.values():
+            q.consumers = [(ch, t) for (ch, t) in q.consumers if ch is not self]
+        for dt in list(self.unacked):
+            self._back(dt, True)
+        self.s.kick()
+
+    def _settle(self, dt: int) -> bool:
+        """True if the delivery tag is outstanding on this channel; an unknown tag (never delivered here, or settled before) is a
+        protocol error - RabbitMQ answers "PRECONDITION_FAILED - unknown delivery tag" and closes the channel."""
+        if dt not in self.unacked:
+            if not self.closed:
+                self._protocol_error(f"PRECONDITION_FAILED - unknown delivery tag {dt}")
+            return False
+        return True
+
     def _back(self, dt: int, requeue: bool) -> None:
         e = self.unacked.pop(dt, None)
         if e is None:
@@ -285,8 +307,9 @@ class Channel:
             raise NotImplementedError
 
         def effect() -> None:
-            self.unacked.pop(delivery_tag, None)
-            self.s.kick()
+            if self._settle(delivery_tag):
+                self.unacked.pop(delivery_tag, None)
+                self.s.kick()
 
         await self._send(effect)
         self.ncalls += 1
@@ -295,12 +318,12 @@ class Channel:
     async def basic_nack(self, delivery_tag: int, multiple: bool = False, requeue: bool = True, wait: bool = True) -> None:
         if multiple:
             raise NotImplementedError
-        await self._send(lambda: self._back(delivery_tag, requeue))
+        await self._send(lambda: self._settle(delivery_tag) and self._back(delivery_tag, requeue))
         self.ncalls += 1
         await asyncio.sleep(0)
 
     async def basic_reject(self, delivery_tag: int, *, requeue: bool = True, wait: bool = True) -> None:
-        await self._send(lambda: self._back(delivery_tag, requeue))
+        await self._send(lambda: self._settle(delivery_tag) and self._back(delivery_tag, requeue))
         self.ncalls += 1
         await asyncio.sleep(0)
 
